@@ -104,6 +104,8 @@ type FnVC struct {
 	bitUses       []bitUse
 	callLocVars   map[string]Loc // callee parameter names bound to interior pointers at the current call
 	sweep         bool           // zero-annotation safety sweep: only run-time safety obligations matter
+	inlinePrefix  string         // name space of the closure body being inlined ("" outside)
+	inlineSeq     int
 	retReach      []string
 	globalErrs    []string
 	newErrs       []string
@@ -217,6 +219,11 @@ func (vc *FnVC) freshConst(prefix, sort string) string {
 }
 
 func (vc *FnVC) declConst(name, sort string) string {
+	// values of a function body that is being inlined (closure executed symbolically) get
+	// their own name space: register names repeat between functions and between inlinings
+	if vc.inlinePrefix != "" && strings.HasPrefix(name, "v$") {
+		name = "v$" + vc.inlinePrefix + name[2:]
+	}
 	vc.decl(name, fmt.Sprintf("(declare-const %s %s)", name, sort))
 	return name
 }
